@@ -16,7 +16,7 @@ PROP = "C09"
 RULE = ("cases = listed conservation-form classes x flags x D x N odd/even x order 1-4 (0 for linear) x dt; states are white noise with Nyquist content for the mean "
         "claim and band-limited for the no-work claim; fixed points are all real constant roots computed by the model; distinct = (monitor, class, flags, D, "
         "N parity, order, state/equilibrium); non-trivial = non-zero mean / non-zero nonlinear term / non-zero equilibrium")
-REQUIRED = {"mean_conserved": {"quick": 200, "thorough": 1000}, "mean_identity": {"quick": 4, "thorough": 20}, "no_work": {"quick": 40, "thorough": 200}, "fixed_point": {"quick": 80, "thorough": 400}}
+REQUIRED = {"mean_conserved": {"quick": 200, "thorough": 1000}, "mean_identity": {"quick": 4, "thorough": 10}, "no_work": {"quick": 40, "thorough": 120}, "fixed_point": {"quick": 80, "thorough": 400}}
 ASSUMPTIONS = ["3D velocity mean conservation is asserted on divergence-free states only (mean N(u) = mean(u div u) otherwise)", "fixed points: |growth*dt| <= 5", "float64"]
 AMBIENT = True            # thorough tier: the repository's own test-suite runs under this property's general monitor (rv/ambient.py)
 REQUIRED_AMBIENT = {'ambient_mean_conserved': 60}
